@@ -232,6 +232,9 @@ CORPUS = [
     (A(use=["x(+)"]), P()), (A(use=["x(-)"]), P()), (A(use=["-x(+)"]), P()), (A(use=["-x(-)"]), P()),
     (A(use=["x(+)"]), P(iuse="x")), (A(use=["x(-)"]), P(iuse="x", use="x")), (A(use=["-x(+)"]), P(iuse="x", use="x")), (A(use=["-x(-)"]), P(iuse="x")),
     (A(use=["x(+)", "y(-)"]), P(iuse="y")), (A(use=["x(+)", "y(-)"]), P(iuse="y", use="y")), (A(use=["x"]), P(use="x")), (A(use=["-x"]), P()),
+    # instance-cache aliasing between USE restrictions (fixed): the first atom of each pair stays alive while the second one is matched
+    (A(use=["x(+)", "-y(+)"]), P(iuse="y")), (A(use=["x(-)", "-y(-)"]), P(iuse="y")), (A(use=["x", "-y"]), P(iuse="y")),
+    (A(use=["z(+)", "-w(+)"]), P(iuse="zw", use="z")), (A(use=["z", "-w"]), P(iuse="zw", use="z")), (A(use=["z(-)", "-w(-)"]), P(iuse="z", use="z")),
     # operators, ~, revisions
     (A("~", "1"), P("1", rev="3")), (A("~", "1.0"), P("1.00", rev="1")), (A("~", "1"), P("1.0")), (A("=", "1"), P("1", rev="0")), (A("=", "1"), P("1", rev="1")),
     (A(">=", "2.1.0_pre3", rev="5"), P("2.1_pre3", rev="5")), (A("=", "0.7"), P("0.7.0")), (A("<", "1", rev="1"), P("1")), (A(">", "1"), P("1", rev="1")),
@@ -281,6 +284,9 @@ def run(ctx):
 
     reqs = [{"cmd": "c04.match", "atom": a, "pkg": p} for a, p, _ in cases]
     repos = {r: FakeRepo(repo_id=r) for r in REPOS}
+    # atoms are kept alive for a while: restrictions are instance-cached by argument equality, so what an atom matches must not depend on which other
+    # atoms exist (defect fixed in the repo: a/b[x(+),-y(+)] alive made a/b[x(-),-y(-)] reuse its USE restriction)
+    alive = []
     for (a, p, rel), rep in zip(cases, ctx.model(reqs)):
         ta, tp = atom_text(a), pkg_text(p)
         case = {"atom": a, "pkg": p, "atom_text": ta, "negate_vers": a["negate"], "pkg_text": tp,
@@ -297,6 +303,9 @@ def run(ctx):
         except Exception as e:
             ctx.mismatch(case, f"generated atom/package rejected by the constructor: {type(e).__name__}: {e}")
             continue
+        alive.append(oa)
+        if len(alive) > 4000:
+            del alive[:1500]
         # glue: what the constructors produced is what the model was given
         want_a = (a["cat"], a["pkg"], a["op"], None if a["ver"] is None else render_ver(a["ver"]), None if a["ver"] is None else int(a["rev"] or 0),
                   a["slot"], a["subslot"], a["repo"], None if a["use"] is None else tuple(sorted(usedep_text(u) for u in a["use"])), a["negate"])
